@@ -8,7 +8,7 @@ import numpy as np
 from hypothesis import strategies as st
 
 from .. import gen
-from ..harness import Sub, Violation, Inconclusive, crash_is_violation, run_world
+from ..harness import Sub, Violation, Inconclusive, crash_is_violation, run_world, interpreted_kernels
 from ..oracles import bspl, advect
 
 PROPERTY = "C11"
@@ -88,6 +88,15 @@ def line_pred(case):
         adv.step(got, case["dt"], case["c"], case["r"])
     scale = float(np.abs(f).max()) + 1e-300
     tol = 1e3 * EPS * info["cond"] * scale
+    if interpreted_kernels():
+        # in place on whatever array is handed over: every other element of a larger buffer
+        big = np.full(2 * len(f) + 1, np.nan)
+        big[1::2] = f
+        with crash_is_violation("C11:step", "VParallelAdvection.step (%s, f given as a strided view)" % case["mode"]):
+            adv.step(big[1::2], case["dt"], case["c"], case["r"])
+        if not (np.abs(big[1::2] - got) <= 1e-12 * scale).all() or not np.isnan(big[0::2]).all():
+            raise Violation("C11:%s:view" % ("cu" if basis.cubic_uniform else "nu"), "step on a strided view: max |f_view - "
+                            "f_contiguous| = %.3e" % np.nanmax(np.abs(big[1::2] - got)))
     if case["mode"] == "periodic":
         width = vpts[-1] - vpts[0]
         tol = tol + info["slope_bound"] * EPS * 8 * (np.abs(info["feet"]).max() + width)
